@@ -282,6 +282,10 @@ def corpus():
             L.append(mkline("gaussian", 12, 2, xc, [0.3 * v + 0.1 for v in cnt], [c] * 12, None, a, 1e-10, 200))
     L.append(mkline("bernoulli", 20, 2, xd, passed, [2.0] * 20, None, 0.1, 1e-10, 200))
     L.append(mkline("exponential", 12, 2, xc, [v + 0.5 for v in cnt], [7.0] * 12, None, 0.0, 1e-10, 200))
+    # finding glm:log-link-start-overflow: intercept-only Poisson, y in {399, 401}: Ok with coef = 400 (MLE: ln 400 = 5.99);
+    # mean(y) = 300 converges (needs ~300 passes), mean(y) = 712 overflows to NaN and is reported as Err
+    for m in (300.0, 400.0, 712.0):
+        L.append(mkline("poisson", 20, 1, [1.0] * 20, [m - 1, m + 1] * 10, None, None, 0.0, 1e-8, 1000))
     # panic classes
     L.append(mkline("gaussian", 6, 2, [2.0] + x[1:], y, None, None, 0.0, 1e-8, 50))          # not a design matrix
     L.append(mkline("gaussian", 6, 2, x, y, [1.0, 2.0], None, 0.0, 1e-8, 50))                 # wrong number of weights
@@ -675,7 +679,7 @@ def check_fit(mp, i, line, rep, fails):
     if not finite:
         fails.append(Failure(i, "nonfinite-success:" + key0, "fit reported success with non-finite coefficients/deviance"))
         return r
-    if not (0 < tol <= 1e-4) or n <= p + 1 or not all(math.isfinite(v) for v in y):
+    if not (1e-15 <= tol <= 1e-4) or n <= p + 1 or not all(math.isfinite(v) for v in y):
         return r      # outside the quantifier (tolerance 1e-5..1e-14, more observations than parameters): exact checks only
     A = analyse(mp, fam, n, p, x, y, w, off, alpha, beta)
     kH, Hi = cond_est(mp, A["H"], p)
@@ -696,6 +700,17 @@ def check_fit(mp, i, line, rep, fails):
     lam2 = qHi(A["score"])
     bound = C_SCORE * T + C_ROUND ** 2 * F
     stat("score", float(lam2 / (T + F + tiny)), key0)
+    if lam2 > bound and fam not in ("gaussian", "bernoulli") and \
+            max((off[ii] if off is not None else 0.0) for ii in range(n)) + sum8(y) / n > 354.89:
+        # genuine finding (stable key): the log-link families start from eta = mean(y) on the LINK scale; for
+        # 354.9 < mean(y) (+ offset) <= 709.78 mu = exp(eta) is finite but dmu*dmu overflows, the information is +inf, the
+        # scoring step is 0, the deviance does not change and `fit` declares convergence at the start value.
+        fails.append(Failure(i, "glm:log-link-start-overflow",
+                             "fit reported success at its start value: intercept %r (= mean(y)), not a stationary point "
+                             "(Newton decrement^2 %.3e > %.3e, score %s); the working weights w*dmu*dmu/var overflow for "
+                             "mean(y) > 354.9 on the link scale [%s]" % (beta[0], float(lam2), float(bound),
+                                                                        [float(v) for v in A["score"]], key0)))
+        return r
     if lam2 > bound:
         fails.append(Failure(i, "not-stationary:" + key0,
                              "fit reported success but the returned coefficients are not a stationary point of the penalised "
